@@ -252,6 +252,7 @@ func runC13(c *Ctx) {
 			"credit/debit iterator can yield a record whose key does not start with the transaction's record-key prefix (records of another transaction/block attributed)")
 	}
 	c.Floor("C13-R3", "credit/debit iterator step functions", nIt, 3)
+	checkReverseSeekCorrected(c, "C13-R3")
 
 	runFlagTyping(c, "C13-R4")
 	checkCreditRewriteFlags(c, "C13-R4")
